@@ -165,7 +165,10 @@ package sio
 //@   safety C14
 //@   ghostset delivered
 //@   requires wfCrew(c) && wfChanged(c)
-//@   ensures[C14] noerr: err == nil && acc != nil
+// (C08: ProcessMsg drops everything it has gathered when RunMachines fails -
+// the emissions of actions that completed earlier in the call included; so
+// RunMachines never fails. A machine whose walk fails is logged and skipped.)
+//@   ensures[C08,C14] noerr: err == nil && acc != nil
 //@   loop 0 invariant wfCrew(c) && wfChanged(c)
 //@   loop 0 invariant[C14] once: forall k string :: ghostin(delivered, k) ==> (k in presented) && presented[k]
 //@   loop 0 invariant[C14] all: forall j int :: 0 <= j && j <= rangeindex && (mids[j] in c.Machines) ==> ghostin(delivered, mids[j])
